@@ -12,6 +12,7 @@ Record cinfo := {
   ci_pair : option nat;     (* the credential issued alongside (access <-> refresh of one response) *)
   ci_challenge : string;    (* codes: PKCE parameters of the authorization request *)
   ci_method : string;
+  ci_redirect : string;     (* codes: redirect_uri of the authorization request ("" = none was sent) *)
   ci_scopes : list string;  (* granted scopes of the grant *)
   ci_aud : list aurl;       (* granted audience, as parsed by Go *)
   ci_subject : string;
@@ -56,11 +57,11 @@ Definition client_has_grant (m : mstate) (c : nat) (g : string) : bool :=
 Definition token_infos (tnow : Z) (base : nat) (kinds : list ckind) (c fam : nat) (sc : list string) (aud : list aurl) (sub : string) : list cinfo :=
   match kinds with
   | [KAccess; KRefresh] =>
-      [{| ci_kind := KAccess; ci_client := c; ci_family := fam; ci_pair := Some (S base); ci_challenge := ""; ci_method := "";
+      [{| ci_kind := KAccess; ci_client := c; ci_family := fam; ci_pair := Some (S base); ci_challenge := ""; ci_method := ""; ci_redirect := "";
           ci_scopes := sc; ci_aud := aud; ci_subject := sub; ci_issued := tnow; ci_decision := 0 |};
-       {| ci_kind := KRefresh; ci_client := c; ci_family := fam; ci_pair := Some base; ci_challenge := ""; ci_method := "";
+       {| ci_kind := KRefresh; ci_client := c; ci_family := fam; ci_pair := Some base; ci_challenge := ""; ci_method := ""; ci_redirect := "";
           ci_scopes := sc; ci_aud := aud; ci_subject := sub; ci_issued := tnow; ci_decision := 0 |}]
-  | _ => map (fun k => {| ci_kind := k; ci_client := c; ci_family := fam; ci_pair := None; ci_challenge := ""; ci_method := "";
+  | _ => map (fun k => {| ci_kind := k; ci_client := c; ci_family := fam; ci_pair := None; ci_challenge := ""; ci_method := ""; ci_redirect := "";
                           ci_scopes := sc; ci_aud := aud; ci_subject := sub; ci_issued := tnow; ci_decision := 0 |}) kinds
   end.
 
@@ -74,7 +75,7 @@ Definition track (m : mstate) (o : op) (ob : obs) (probes : list (option payload
   match o with
   | OAuthorize a =>
       if ok then add (map (fun k => {| ci_kind := k; ci_client := az_client a; ci_family := base; ci_pair := None;
-                                        ci_challenge := az_challenge a; ci_method := az_method a;
+                                        ci_challenge := az_challenge a; ci_method := az_method a; ci_redirect := az_redirect a;
                                         ci_scopes := az_granted a; ci_aud := az_gaud a; ci_subject := az_subject a; ci_issued := tnow; ci_decision := 0 |})
                          (o_minted ob))
       else add []
@@ -111,7 +112,7 @@ Definition track (m : mstate) (o : op) (ob : obs) (probes : list (option payload
   | OPush auth bc _ a =>
       let c := match bc, auth with Some b, _ => b | None, Some x => x | None, None => 0 end in
       add (map (fun k => {| ci_kind := k; ci_client := c; ci_family := base; ci_pair := None;
-                            ci_challenge := az_challenge a; ci_method := az_method a;
+                            ci_challenge := az_challenge a; ci_method := az_method a; ci_redirect := az_redirect a;
                             ci_scopes := az_scopes a; ci_aud := az_aud a; ci_subject := ""; ci_issued := tnow; ci_decision := 0 |}) (o_minted ob))
   | OAuthorizePAR _ uri a =>
       match cred m uri with
@@ -120,20 +121,20 @@ Definition track (m : mstate) (o : op) (ob : obs) (probes : list (option payload
                         m_dead := m_dead m'; m_dead_creds := m_dead_creds m'; m_prev := m_prev m'; m_now := m_now m' |})
           (add (map (fun k => {| ci_kind := k; ci_client := ci_client pc; ci_family := base; ci_pair := None;
                                 ci_challenge := if String.eqb (ci_challenge pc) "" then az_challenge a else ci_challenge pc;
-                                ci_method := if String.eqb (ci_method pc) "" then az_method a else ci_method pc;
+                                ci_method := if String.eqb (ci_method pc) "" then az_method a else ci_method pc; ci_redirect := ci_redirect pc;
                                 ci_scopes := az_granted a; ci_aud := az_gaud a; ci_subject := az_subject a; ci_issued := tnow; ci_decision := 0 |}) (o_minted ob)))
       | None => add (token_infos tnow base (o_minted ob) 0 base [] [] "")
       end
   | ODeviceAuth auth _ sc au =>
       add (map (fun k => {| ci_kind := k; ci_client := match auth with Some c => c | None => 0 end; ci_family := base; ci_pair := None;
-                            ci_challenge := ""; ci_method := ""; ci_scopes := []; ci_aud := []; ci_subject := ""; ci_issued := tnow; ci_decision := 0 |}) (o_minted ob))
+                            ci_challenge := ""; ci_method := ""; ci_redirect := ""; ci_scopes := []; ci_aud := []; ci_subject := ""; ci_issued := tnow; ci_decision := 0 |}) (o_minted ob))
   | ODecide dev acc g ga sub =>
       match cred m dev with
       | Some (i, c) =>
           if ok then
             {| m_creds := replace_nth (m_creds m) i
                             {| ci_kind := ci_kind c; ci_client := ci_client c; ci_family := ci_family c; ci_pair := ci_pair c;
-                               ci_challenge := ""; ci_method := ""; ci_scopes := g; ci_aud := ga; ci_subject := sub;
+                               ci_challenge := ""; ci_method := ""; ci_redirect := ""; ci_scopes := g; ci_aud := ga; ci_subject := sub;
                                ci_issued := ci_issued c; ci_decision := if acc then 1 else 2 |};
                m_clients := m_clients m; m_redeemed := m_redeemed m; m_used_rt := m_used_rt m;
                m_dead := m_dead m; m_dead_creds := m_dead_creds m; m_prev := probes; m_now := m_now m |}
@@ -330,6 +331,8 @@ Definition judge_C02 (cfg : config) : judge_t := fun m o ob pr =>
             | Some a => if Nat.eqb a (ci_client c) then
                           (* the code's lifetime (the hybrid handler rounds the expiry to a whole second: half a second of slack) *)
                           if Z.ltb (ci_issued c + cf_life_code cfg + 500) (m_now m) then (Some "code_redeemed_after_its_expiry", [], [])
+                          else if negb (String.eqb (ci_redirect c) "") && negb (String.eqb (ci_redirect c) redirect)
+                               then (Some "code_redeemed_with_a_redirect_uri_that_differs_from_the_authorization_request", [], [])
                           else if list_eqb (o_scopes ob) (ci_scopes c) then (None, [], []) else (Some "token_response_scope_differs_from_grant", [], [])
                         else (Some "code_redeemed_by_foreign_client", [], [])
             | None => (Some "code_redeemed_without_client_authentication", [], [])
